@@ -220,7 +220,7 @@ class Xform(ast.NodeTransformer):
         inner = cut[2]
         assert isinstance(inner, ast.If)
         inner.body[0].targets = [node.target]
-        inner.body = [inner.body[0]] + _copy_body(node.body) + [inner.body[1]]
+        inner.body = [inner.body[0]] + _once(_copy_body(node.body), '__brk%d' % i, [inner.body[1]])
         if node.orelse:
             cut.extend(_copy_body(node.orelse))
         return new
@@ -255,8 +255,51 @@ class Xform(ast.NodeTransformer):
         inner = cut[3]
         assert isinstance(inner, ast.If)
         inner.test = _copy_node(node.test)
-        inner.body = _copy_body(node.body) + [inner.body[0]]
+        inner.body = _once(_copy_body(node.body), '__brk%d' % i, [inner.body[0]])
         return new
+
+
+class _BreakFlag(ast.NodeTransformer):
+    """in the cut copy of a loop body: `break` of THIS loop sets a flag (nested loops are left alone)"""
+
+    def __init__(self, flag):
+        self.flag, self.used = flag, False
+
+    def visit_For(self, node):
+        return node
+
+    visit_While = visit_For
+    visit_FunctionDef = visit_For
+    visit_Lambda = visit_For
+
+    def visit_Break(self, node):
+        self.used = True
+        return [ast.Assign(targets=[ast.Name(self.flag, ast.Store())], value=ast.Constant(True)), ast.Break()]
+
+
+def _once(body, flag, tail):
+    """run `body` once inside a one-iteration loop so that `continue` ends the iteration and `break` is recorded;
+    `tail` (the preservation check) runs unless the loop was left by `break`"""
+    bf = _BreakFlag(flag)
+    body = [bf.visit(s) for s in body]
+    flat = []
+    for s in body:
+        flat.extend(s if isinstance(s, list) else [s])
+    has_cont = any(isinstance(x, (ast.Continue, ast.Break)) for s in flat for x in _walk_same_loop(s))
+    if not has_cont:
+        return flat + tail
+    init = ast.Assign(targets=[ast.Name(flag, ast.Store())], value=ast.Constant(False))
+    loop = ast.For(target=ast.Name('__once', ast.Store()), iter=ast.Tuple([ast.Constant(0)], ast.Load()), body=flat, orelse=[], type_comment=None)
+    guard = ast.If(test=ast.UnaryOp(ast.Not(), ast.Name(flag, ast.Load())), body=tail, orelse=[])
+    return [init, loop, guard]
+
+
+def _walk_same_loop(node):
+    yield node
+    for ch in ast.iter_child_nodes(node):
+        if isinstance(ch, (ast.For, ast.While, ast.FunctionDef, ast.Lambda)):
+            continue
+        yield from _walk_same_loop(ch)
 
 
 def _copy_node(n):
